@@ -142,11 +142,11 @@ def main(chk, pid, tier, seed, replay):
             bh = got.get((s, "behave"))
             if bh != ref.get((s, "behave")):
                 violations.append({"sub": "feature_matrix", "key": f"behaviour_differs:set{s}", "case": case,
-                                   "what": f"configuration [{label}]: API-behaviour digest of ML-DSA-{s} (derived/round-tripped key bytes, malformed-key rejection, 256-byte context handling, RNG-failure reporting, internal interface KAT, wipe on drop, signatures of a crafted extreme-t0 key) is {bh}, expected {ref.get((s, 'behave'))}"})
+                                   "what": f"configuration [{label}]: API-behaviour digest of ML-DSA-{s} (derived/round-tripped key bytes, malformed-key rejection, 256-byte context handling, RNG-failure reporting, internal interface KAT, wipe on drop) is {bh}, expected {ref.get((s, 'behave'))}"})
             rr = got.get((s, "rare"))
             if rr != ref.get((s, "rare")):
                 violations.append({"sub": "feature_matrix", "key": f"rare_event_digest_differs:set{s}", "case": case,
-                                   "what": f"configuration [{label}]: keys / signatures of ML-DSA-{s} on the rare-event corpus (seeds with extreme RejNTTPoly / RejBoundedPoly streams, signatures with long SampleInBall re-draw runs) give digest {rr}, the reference model gives {ref.get((s, 'rare'))}"})
+                                   "what": f"configuration [{label}]: keys / signatures of ML-DSA-{s} on the rare-event corpus (seeds with extreme RejNTTPoly / RejBoundedPoly streams, signatures with long SampleInBall re-draw runs or late loop iterations, crafted verification vectors, signatures of a crafted extreme-t0 private key) give digest {rr}, the reference model gives {ref.get((s, 'rare'))}"})
             if "dudect" in feat:
                 dd = got.get((s, "dudect"))
                 if s in dud_ref and dud_ref[s] != dd:
